@@ -986,6 +986,16 @@ func plDropScenarios(thorough bool) ([]*plScenario, map[string]map[string]bool) 
 			Drivers: []plDriver{{Kind: "start", Coll: 0}, {Kind: "start", Coll: 1, AfterFirst: true}}})
 		synth["drop:restart-collection-joins-resumed-handler"] = map[string]bool{"coll/default/d": true}
 	}
+	// the dropped collection has no checkpoint and nothing else is on its channel (it was created downstream through CDC
+	// and the process died before the first checkpoint of that collection was written; the reader then starts it without
+	// seek positions): recorded finding C04/missing-synthetic-drop/no-checkpoint
+	{
+		d := mkColl(103, "d", []string{"src-dml_0"}, []string{"tgt-dml_0"})
+		d.Dropped = true
+		out = append(out, &plScenario{Name: "drop:restart-collection-without-checkpoint", SrcN: 1, TgtN: 1, Colls: []*plColl{d},
+			Drivers: []plDriver{{Kind: "start", Coll: 0}}})
+		synth["drop:restart-collection-without-checkpoint"] = map[string]bool{"coll/default/d": true}
+	}
 	// restart from a checkpoint that lies before the drop message of a collection already dropped upstream:
 	// every shard sees a synthetic drop AND re-reads the real one; still exactly one request, after all shards
 	{
